@@ -7,6 +7,7 @@ import (
 	"os"
 	"regexp"
 	"runtime/debug"
+	"sort"
 	"strings"
 	"sync"
 	"testing"
@@ -39,7 +40,11 @@ type C14Scenario struct {
 func genC14(rt *rapid.T) C14Scenario {
 	s := C14Scenario{Cluster: rapid.SampledFrom([]string{"", "", "c1"}).Draw(rt, "cluster")}
 	s.Subject = genReq(rt, "subject", false)
-	for s.Subject.Kind != "query_range" && s.Subject.Kind != "query" && s.Subject.Kind != "search" && s.Subject.Kind != "series" && s.Subject.Kind != "label_values" && s.Subject.Kind != "tags_v2" && s.Subject.Kind != "tag_values_v2" {
+	subjectKinds := map[string]bool{"query_range": true, "query": true, "search": true, "series": true, "label_values": true, "tags_v2": true, "tag_values_v2": true,
+		// profile queries (the quantifier names them) and PromQL
+		"prof_merge": true, "prof_select_series": true, "prof_series": true, "prof_label_names": true, "prof_label_values": true, "prof_merge_profiles": true, "render_diff": true,
+		"prom_range": true, "prom_instant": true, "prom_series": true}
+	for !subjectKinds[s.Subject.Kind] {
 		s.Subject.Kind = rapid.SampledFrom([]string{"query_range", "query_range", "query", "search", "series", "tags_v2", "tag_values_v2"}).Draw(rt, "subject.kind2")
 		if s.Subject.Kind == "search" || strings.HasPrefix(s.Subject.Kind, "tag") {
 			s.Subject.Query = rapid.SampledFrom(traceQLs).Draw(rt, "subject.tq2")
@@ -86,8 +91,21 @@ func canon(q string) string {
 	q = reDateLit.ReplaceAllString(q, "'D'")
 	q = reBigNum.ReplaceAllString(q, "T")
 	q = reWSs.ReplaceAllString(q, " ")
+	// IN (1,2,3) is a set: a follow-up statement lists the fingerprints the first statement returned in the order
+	// of a Go map; the order of the members does not change the meaning of the statement
+	q = reNumList.ReplaceAllStringFunc(q, func(m string) string {
+		i := strings.Index(m, "(")
+		items := strings.Split(strings.Trim(m[i:], "()"), ",")
+		for k := range items {
+			items[k] = strings.TrimSpace(items[k])
+		}
+		sort.Strings(items)
+		return m[:i] + "(" + strings.Join(items, ",") + ")"
+	})
 	return strings.TrimSpace(q)
 }
+
+var reNumList = regexp.MustCompile(`(?i)\bIN \(\s*[0-9T]+(\s*,\s*[0-9T]+)+\s*\)`)
 
 var (
 	rePortion = regexp.MustCompile(`cityHash64\(trace_id\) % [0-9]+\)+ == \(+[0-9]+\)+`)
